@@ -173,6 +173,13 @@ func genExpSpec() *rapid.Generator[ExpSpec] {
 						g.WinnerGenes = rapid.IntRange(0, 3).Draw(t, "winner genes")
 					}
 				}
+				if !g.Solved && rapid.IntRange(0, 7).Draw(t, "winner numbers on an unsolved generation") == 0 {
+					// e.g. a champion that solved the task but failed a later generalisation test: the evaluator recorded
+					// its numbers and then withdrew the solved flag
+					g.WinnerEvals = rapid.IntRange(1, 5000).Draw(t, "evals (unsolved)")
+					g.WinnerNodes = rapid.IntRange(1, 9).Draw(t, "winner nodes (unsolved)")
+					g.WinnerGenes = rapid.IntRange(1, 9).Draw(t, "winner genes (unsolved)")
+				}
 				g.Diversity = rapid.IntRange(0, 6).Draw(t, "diversity")
 				for s := 0; s < g.Diversity; s++ {
 					g.Fitness = append(g.Fitness, genFitness().Draw(t, "sp fitness"))
